@@ -199,6 +199,26 @@ def r6_only_notfound_tolerated(ck, rule="C18-R6"):
                        "normal return or the next iteration): the failure is passed over", fn.where(fn.blocks[g["bb"]]["term"]),
                        ok_detail="the non-NotFound side only reaches error returns")
     ck.floor(rule, "NotFound tests after a failed output operation", m, 2)
+    # ... and a failure that is only asked about with is_ok() / is_err() cannot be told from `not found` at all: its failure side must
+    # not carry on either
+    for fn in sorted(prog.fns.values(), key=lambda f: f.id):
+        if fn.crate != "rapidquilt":
+            continue
+        src = lambda x: isinstance(x, tuple) and x and x[0] == "call" and x[1] in OUT
+        for g in guards.find_bool_guards(fn, lambda x: (df.is_call(x, "Result::<T, E>::is_ok") or df.is_call(x, "Result::<T, E>::is_err")) and
+                                         len(x[2]) == 1 and df.mentions(x[2][0], src)):
+            fail_edge = g["false_edge"] if df.is_call(g["expr"], "Result::<T, E>::is_ok") else g["true_edge"]
+            err_bbs = {bb for bb, idx, st in fn.stmts() if st["k"] == "assign" and st["lhs"]["l"] == 0 and not st["lhs"].get("p") and
+                       st["rv"]["k"] == "agg" and st["rv"].get("variant") == "Err"}
+            err_bbs |= {bb for bb, t in fn.calls() if (callee_of(t).get("path") or "").endswith("from_residual") and t["dest"]["l"] == 0}
+            r = pathconst.reach_under(fn, lambda e_: None, None, blocked=err_bbs, valuation=lambda e_: None, prog=prog, start=[fail_edge[1]]) \
+                if fail_edge[1] not in err_bbs else set()
+            loop = cfg.innermost_loop_of(fn, g["bb"])
+            goes_on = [b_ for b_ in r if fn.blocks[b_]["term"]["k"] == "return"] or (loop is not None and loop[0] in r)
+            ck.require(not goes_on, rule, "a failed output operation asked about with is_ok()/is_err() ends in an error return (%s)" % fn.id.split("::")[-1],
+                       "%s only asks whether the operation succeeded (%s) and carries on when it did not: whatever made it fail - not only "
+                       "'there was nothing to remove' - is passed over and the run can report success" % (fn.id, df.show(g["expr"], 70)),
+                       fn.where(fn.blocks[g["bb"]]["term"]), ok_detail="the failure side only reaches error returns")
 
 
 def flush_sites(ck, fn):
